@@ -42,9 +42,10 @@ type Case struct {
 	Resps  []Resp   `json:"resps"`
 	RelErr []string `json:"relerr"`
 	Err    string   `json:"err"`
-	// c12 only: the same history on a handler without cache
-	Resps0  []Resp   `json:"resps0,omitempty"`
-	RelErr0 []string `json:"relerr0,omitempty"`
+	// c12 histories: the same events on a handler with cache (Hist1) and without (Hist0)
+	Hist1 []HistObs `json:"hist1,omitempty"`
+	Hist0 []HistObs `json:"hist0,omitempty"`
+	Locs  []int     `json:"locs,omitempty"` // per thread: location id the static maps give the requester
 }
 
 // Query shapes of the stamped zone.
@@ -61,8 +62,15 @@ var shapeTable = map[string]Shape{
 	"example.com.|6":        {Ans: true}, // SOA
 }
 
+// hasMap: names for which the static part declares a resolver / ECS map; every other
+// name is looked up with the empty location whoever asks.
+func hasMap(name string) bool { return name == "example.com." || name == "geo.example.com." }
+
 // LocOf is the location the static maps give a requester.
 func LocOf(t ThreadSpec) int {
+	if !hasMap(strings.ToLower(t.Name)) {
+		return 0
+	}
 	in := func(ip string) bool { return strings.HasPrefix(ip, "192.0.2.") }
 	if t.Edns && t.ECS != "" {
 		if in(t.ECS) {
@@ -81,6 +89,7 @@ func (c *Case) Derive() {
 	ids := map[string]int{}
 	c.Keys = make([]int, len(c.Threads))
 	c.Shapes = make([]Shape, len(c.Threads))
+	c.Locs = make([]int, len(c.Threads))
 	for i, t := range c.Threads {
 		c.Keys[i] = -1
 		if t.Kind != "q" {
@@ -93,12 +102,13 @@ func (c *Case) Derive() {
 		name := strings.ToLower(t.Name)
 		sh := shapeTable[fmt.Sprintf("%s|%d", name, t.Qtype)]
 		if qc != int(dns.ClassINET) {
-			sh = shapeTable[fmt.Sprintf("%s|%d|%d", name, t.Qtype, qc)]
+			sh = Shape{}
+		}
+		if !strings.HasSuffix(name, "example.com.") {
+			sh = Shape{Refused: true}
 		}
 		loc := LocOf(t)
-		if sh.Refused {
-			loc = 0 // no map for the name: empty location (key irrelevant, never cached)
-		}
+		c.Locs[i] = loc
 		k := fmt.Sprintf("%d|%d|%d|%s", loc, t.Qtype, qc, name)
 		if _, ok := ids[k]; !ok {
 			ids[k] = len(ids)
